@@ -109,6 +109,17 @@ theorem C05_partial_set_first_row (ps : Props) (g : G) (row : Row) (rows : List 
   simp [applyWrite, C05_set_items_evaluated_before_any_write g ps row items e h, bind, Except.bind,
     Except.map]
 
+/-- whatever a failing row had already made — nodes, relationships between nodes that existed
+before, the first of several relationships — is not part of what is left: for **every** write
+clause, a failure on the first row leaves the graph exactly as it was (class of the seeded
+change C05-b, where a relationship whose own property failed was not taken back) -/
+theorem C05_partial_any_clause_first_row (ps : Props) (c : Clause) (g : G) (row : Row)
+    (rows : List Row) (e : Err) (h : applyWrite G.delNode ps c g row = .error e) :
+    streamRows (fun g row => (applyWrite G.delNode ps c g row).map (·.1)) g (row :: rows)
+      = (g, some e) := by
+  apply C05_partial_first_row
+  simp [h, Except.map]
+
 /-- the executable specification evaluated by the harness, satisfied by S -/
 theorem C05_model_refines_spec (ps : Props) (g : G) (q : Stmt) :
     specAtomic g (match execAtomic ps g q with
@@ -146,6 +157,15 @@ theorem C05_counterexample_no_undo :
 theorem C05_spec_on_witness :
     execAtomic [] G.empty ⟨witnessSrc ++ [.create [⟨witnessPat, none⟩]], none⟩ = (G.empty, some .div0) := by
   decide
+
+/-- witness of the class C05-b: `(a:L0 {k5: 0})-[:T0]->(b:L1)`, then
+`MATCH (a:L0)-[:T0]->(b:L1) CREATE (a)-[:T1 {k0: 3, k1: 12 / a.k5}]->(b)`: the error, and no second relationship -/
+theorem C05_failed_relationship_is_taken_back :
+    execStream [] ⟨[⟨1, [0], [(5, .int 0)]⟩, ⟨2, [1], []⟩], [⟨1, 1, 2, 0, []⟩]⟩
+      [.matchR 1 [0] 5 0 2 [1]]
+      (.create [⟨⟨some 1, [], []⟩, some (1, [(0, .lit (.int 3)), (1, .bin .div (.lit (.int 12)) (.prop 1 5))], true,
+        ⟨some 2, [], []⟩)⟩])
+      = (⟨[⟨1, [0], [(5, .int 0)]⟩, ⟨2, [1], []⟩], [⟨1, 1, 2, 0, []⟩]⟩, some .div0) := by decide
 
 /-! ### non-vacuity -/
 
